@@ -95,6 +95,8 @@ def mon_C03(case, obs):
 
 
 def mon_C04(case, obs):
+    if obs.get('serial_elsewhere'):
+        return ('serial-ran-elsewhere', f"with runner_backend='serial', {obs['serial_elsewhere']} task executions did not happen in the calling thread of the calling process")
     inflight = []
     for e in obs['events']:
         if e[0] == 'submit':
@@ -160,7 +162,7 @@ def mon_C10(case, obs):
         if fails:
             if obs['outcome'] != 'laberror':
                 return ('failure-not-raised', f"continue_on_failure=False, a task failed, run_tasks ended with {obs['outcome']}")
-            if obs.get('cause') not in ('ValueError', 'TaskError', 'TaskDiedError'):
+            if obs.get('cause') not in ('ValueError', 'TaskError', 'TaskDiedError', 'PicklingError'):
                 return ('laberror-without-cause', f"LabError cause is {obs.get('cause')}")
             later = [e for e in obs['events'][fails[0]:] if e[0] == 'submit']
             if later:
@@ -204,6 +206,11 @@ def mon_C17(case, obs):
                     return ('released-too-early', f'result of {d} gone while {dependents} still depend on it')
                 if not dependents and d in inmap:
                     return ('not-released', f'result of {d} still in memory although no unfinished task depends on it')
+    ref = S.py_ref(case)
+    spurious = [e[1] for e in obs['events'] if e[0] == 'finish' and e[2] is None and ref[e[1]] is not None]
+    if spurious:
+        return ('result-unavailable', f'tasks {spurious} failed although nothing they depend on failed: a dependency result they read was not available '
+                                      f"({[obs.get('excs', {}).get(t) for t in spurious]})")
     if obs['outcome'] == 'returned' and obs['final_rmap']:
         return ('results-left-at-return', f"runner still holds results of {obs['final_rmap']} after a normal return")
     if obs['outcome'] == 'returned' and obs.get('readable_after'):
@@ -222,7 +229,7 @@ PROPS = {
                 what='in-flight sets per type at every submission'),
     'C05': dict(proj=_proj(submit=True, finish=True), monitor=mon_C05, gen=dict(p_fail=0.1),
                 what='pending-but-runnable tasks at every rest point'),
-    'C10': dict(proj=_proj(outcome=True, finish=True, store=True), monitor=mon_C10, gen=dict(p_fail=0.35),
+    'C10': dict(proj=_proj(outcome=True, finish=True, store=True), monitor=mon_C10, gen=dict(p_fail=0.35, p_unpicklable=0.4),
                 what='outcome, failures and cache contents under failures'),
     'C11': dict(proj=_proj(outcome=True), monitor=mon_C11, gen=dict(p_fail=0.25),
                 what='outcome (never Stuck) under failures and tight limits'),
@@ -272,6 +279,33 @@ def stage_falsy_results(report, dist):
         shutil.rmtree(d, ignore_errors=True)
 
 
+def stage_nested_names(report, dist):
+    """C01, directed: two task types with the same class name nested in different classes, used as dependencies of otherwise
+    identical tasks, on one storage: what each dependent returns is what *its* dependency computes, whichever ran (and was
+    cached) first."""
+    import shutil
+    import tempfile
+    from labtech.lab import Lab
+    from common import subdir
+    d = tempfile.mkdtemp(dir=subdir('nested'))
+    try:
+        for backend in ('serial', 'fork'):
+            lab = Lab(storage=os.path.join(d, backend), runner_backend=backend, max_workers=2, notebook=False)
+            pa, pb = U.VDep(x=U.NestA_Leaf(x=1)), U.VDep(x=U.NestB_Leaf(x=1))
+            ra = lab.run_tasks([pa], disable_progress=True, disable_top=True).get(pa)
+            rb = lab.run_tasks([pb], disable_progress=True, disable_top=True).get(pb)
+            both = lab.run_tasks([pa, pb], disable_progress=True, disable_top=True)
+            dist['nested_name_runs'] += 3
+            want_a, want_b = ('dep-says', ('from-A', 1)), ('dep-says', ('from-B', 1))
+            if (ra, rb, both.get(pa), both.get(pb)) != (want_a, want_b, want_a, want_b):
+                report.violation('C01:wrong-result', f'backend {backend}: tasks depending on NestA.Leaf(1) / NestB.Leaf(1) (same class name, different enclosing class) '
+                                                     f'returned {ra!r} / {rb!r}, then {both.get(pa)!r} / {both.get(pb)!r} from the cache; expected {want_a!r} / {want_b!r}',
+                                 dict(level='nested-names', backend=backend))
+                return
+    finally:
+        shutil.rmtree(d, ignore_errors=True)
+
+
 def run(prop, report, tier, seed, replay=None):
     spec = PROPS[prop]
     rng = rng_for(seed, prop, 'sched')
@@ -294,6 +328,10 @@ def run(prop, report, tier, seed, replay=None):
     dist = Counter()
     if prop == 'C01' and (replay is None or replay['input'].get('level') == 'falsy'):
         stage_falsy_results(report, dist)
+        if replay is not None:
+            return
+    if prop == 'C01' and (replay is None or replay['input'].get('level') == 'nested-names'):
+        stage_nested_names(report, dist)
         if replay is not None:
             return
     seen = set()
